@@ -533,3 +533,41 @@ Example C19_nonvacuous_split :
   s_region nat (tail_after_wait nat false (fun i => 100 + i) (fun i => 200 + i) 1 2 (repeat 99 8)
                (mkS nat 8 0 (mkView 2 9 30) (mkView 0 1 30) (0, 7) [])) = (0, 7).
 Proof. vm_compute. repeat split; reflexivity. Qed.
+
+(* ================= the column of the terminal cursor (fixes 216c15e, 11b9bf2 of /repo; coq/DrawCurDefs.v DrawCurProps.v) ================= *)
+From NV Require Import DrawCurDefs DrawCurProps.
+
+(* ren_cursor over ren_position's positions (pos_prev / pos_next as the loops of ren.c, the newline at the largest position).  The tail
+   of vi() computes the cursor from the OFFSET: for n single-width characters at the positions 0 .. n-1 in ANY order (any reordering
+   dir_reorder makes), the position handed to vi_pos is the position of the character at xoff -- the remembered column xcol, which
+   j / k / n| keep, does not occur *)
+Theorem C19_cursor_pos_is_char : forall ps xoff, wf_layout ps -> xoff < length ps ->
+  cursor_pos ps (Z.of_nat (length ps)) xoff = nth xoff ps 0%Z.
+Proof. exact cursor_pos_is_char. Qed.
+Print Assumptions C19_cursor_pos_is_char.
+(* ... so the terminal cursor is on the cell that shows the character commands act on: every reordering, either base direction,
+   every td, xleft, xcols with the character inside the window *)
+Theorem C19_cursor_from_offset_holds_char : forall (G : Type) td xleft xcols hi m ps (gs : list G) xoff d,
+  wf_layout ps -> length gs = length ps -> xoff < length ps -> (0 <= xcols)%Z ->
+  (xleft <= nth xoff ps 0 < xleft + xcols)%Z ->
+  let l := mkLine G hi m (chars_of G ps gs) in
+  nth (Z.to_nat (vi_pos (line_dir G td l) (cursor_pos ps (Z.of_nat (length ps)) xoff) xleft xcols)) (render_row G td xleft xcols l) None
+  = Some (nth xoff gs d).
+Proof. exact cursor_from_offset_holds_char. Qed.
+Print Assumptions C19_cursor_from_offset_holds_char.
+(* before 216c15e (cursor from xcol): on the reversed line "cba" with a remembered column beyond its end the motion ends on offset 2
+   (shown at position 0) and the cursor goes to position 2 (character 0); on a line in buffer order the two agree *)
+Example C19_cursor_from_xcol_other_char :
+  col2off [2; 1; 0]%Z 3 10 = 2 /\ cursor_pos_xcol [2; 1; 0]%Z 3 10 = 2%Z /\ cursor_pos [2; 1; 0]%Z 3 2 = 0%Z /\
+  col2off [0; 1; 2]%Z 3 10 = 2 /\ cursor_pos_xcol [0; 1; 2]%Z 3 10 = 2%Z /\ cursor_pos [0; 1; 2]%Z 3 2 = 2%Z.
+Proof. exact cursor_from_xcol_other_char. Qed.
+(* start-up: the xleft rule before the first paint puts the first character's cell inside the window and term_pos gets its exact
+   column; without it a first character at or beyond the right margin gets the clamped column of another cell *)
+Theorem C19_init_left_visible : forall xcol xcols, (1 <= xcols)%Z -> (0 <= xcol)%Z ->
+  let l := init_left xcol xcols in (0 <= l /\ l <= xcol < l + xcols /\ term_col l xcols xcol = xcol - l)%Z.
+Proof. exact init_left_visible. Qed.
+Print Assumptions C19_init_left_visible.
+Theorem C19_init_without_rule_clamps : forall xcol xcols, (1 <= xcols)%Z -> (xcols <= xcol)%Z ->
+  term_col 0 xcols xcol = (xcols - 1)%Z /\ (xcols - 1 <> xcol - 0)%Z.
+Proof. exact init_without_rule_clamps. Qed.
+Print Assumptions C19_init_without_rule_clamps.
